@@ -44,6 +44,7 @@ static void fr_end (void) { }
 #define sched_track_fd(fd) ((void) 0)
 #define sched_point(l) ((void) 0)
 #define sched_steps() 0L
+#define vx_obs(...) ((void) 0)          /* observations of a free run are timing dependent */
 #else
 #define SCHED 1
 #endif
@@ -53,10 +54,16 @@ static unsigned g_vmask;
 static const char *g_bodyname = "?";
 static const char *volatile g_call = "-";       /* API call the main thread is inside (for stuck reports) */
 
+/* In the free-running build the ordering oracles are NOT the deciding step (timing dependent, not
+ * replayable): they are only counted; findings of that build are ThreadSanitizer reports. */
 static void failf (const char *key, const char *fmt, ...) {
   char msg[560]; va_list ap; va_start (ap, fmt); vsnprintf (msg, sizeof msg, fmt, ap); va_end (ap);
+#if SCHED
   vx_fail (key, "%s", msg);
   vx_obs ("!! %s: %s", key, msg);
+#else
+  (void) key; vx_count (6, 1);
+#endif
 }
 
 static void on_stuck (int kind, const char *desc) {
@@ -673,11 +680,17 @@ int main (int argc, char **argv) {
   vx_count_name (3, "timer_ticks");
   vx_count_name (4, "console_bytes_delivered");
   vx_count_name (5, "free_running_iterations");
+  vx_count_name (6, "free_running_oracle_hits_not_deciding");
   debug_set_log_with_date (0);
 #ifdef C19_FREE
   g_iters = vx_opt_long ("iters", 300);
   static const int nv[6] = { 0, NPOSTSPEC, 3, NWS, 4, 2 };
-  for (int b = 1; b <= 5; b++) for (int v = 0; v < nv[b]; v++) { EL[nEL].body = b; EL[nEL].variant = v; nEL++; }
+  for (int b = 1; b <= 5; b++) for (int v = 0; v < nv[b]; v++) {
+    /* worker script 2 (timed join before the worker was told to stop) really hangs when run natively
+     * (finding C19:worker:hang:main-in-async_worker_join(20)-before-stop); script 4 covers the same accesses */
+    if (b == 3 && v == 2 && !vx_opt_long ("with-hanging-script", 0)) continue;
+    EL[nEL].body = b; EL[nEL].variant = v; nEL++;
+  }
   g_vmask = 0;
   vx_set_enum (nEL, elem_fn, describe);
 #endif
